@@ -238,3 +238,17 @@ def update_consumers(consumers, request_attrs):
                       "consumer record.", consumer.uuid)
             consumer.consumer_type_id = consumer_type_id
             consumer.update()
+
+
+def delete_new_consumers_without_allocations(ctx, new_consumers):
+    """Delete the consumers that were auto-created for this request and ended
+    up holding no allocations, e.g. after an empty allocations write for a
+    consumer that did not exist before.
+
+    :param ctx: The request context, inside the writing transaction.
+    :param new_consumers: a list of the Consumer objects created by the
+                          request
+    """
+    if new_consumers:
+        consumer_obj.delete_consumers_if_no_allocations(
+            ctx, [consumer.uuid for consumer in new_consumers])
